@@ -94,8 +94,8 @@ def fmtObj (o : Obj Val LV) : String := o.kind ++ ":" ++ fmtNames o.paramNames
 def fmtErr (e : Err) : String := "err:" ++ e.toString
 
 /-- run the calls; on an error the current object is unchanged -/
-def runCalls : Obj Val LV → List String → List String → Option (List String)
-  | _, [], acc => some acc.reverse
+def runCalls : Obj Val LV → List String → List String → Option (List String × Obj Val LV)
+  | o, [], acc => some (acc.reverse, o)
   | o, c :: cs, acc =>
     match c.splitOn ";" with
     | [op, pos, kw] =>
@@ -260,8 +260,42 @@ def step : List String → String
       | .error e => fmtErr e
       | .ok o =>
         match runCalls o calls [fmtObj o] with
-        | some recs => ";".intercalate recs
+        | some (recs, _) => ";".intercalate recs
         | none => "bad-op"
+  /- staged assembly: `prog2 <dens> -- <calls> ++ <dens> -- <calls>`: the first joint is built and conditioned, the densities
+     of the result (those of a joint, or the single density with its constants) are put, followed by the fresh densities of the
+     second group, into a second `JointDistribution(...)`, on which the second list of calls runs -/
+  | "prog2" :: rest =>
+    let (st1, st2) := (fun (p : List String × List String) => p) (
+      let rec go : List String → List String → List String × List String
+        | [], acc => (acc.reverse, [])
+        | "++" :: r, acc => (acc.reverse, r)
+        | t :: r, acc => go r (t :: acc)
+      go rest [])
+    let (d1, c1) := splitAtSep st1 []
+    let (d2, c2) := splitAtSep st2 []
+    match d1.mapM parseDens, d2.mapM parseDens with
+    | some ds1, some ds2 =>
+      match mkJoint ds1 with
+      | .error e => fmtErr e
+      | .ok o1 =>
+        match runCalls o1 c1 [fmtObj o1] with
+        | none => "bad-op"
+        | some (recs1, o1') =>
+          let pieces : Option (List (Dens Val LV)) := match o1' with
+            | .joint _ ds => some ds
+            | .single d => some [d]
+            | _ => none
+          match pieces with
+          | none => "bad-op"
+          | some ps =>
+            match mkJoint (ps ++ ds2) with
+            | .error e => ";".intercalate (recs1 ++ [fmtErr e])
+            | .ok o2 =>
+              match runCalls o2 c2 [fmtObj o2] with
+              | some (recs2, _) => ";".intercalate (recs1 ++ recs2)
+              | none => "bad-op"
+    | _, _ => "bad-op"
   | _ => "bad-op"
 
 def main : IO Unit := runDriver step
